@@ -241,6 +241,35 @@ def l2gate(ctx, f):
                 f'the model-checking results of this check say nothing about this code any more')
 
 
+def bulk_extra(ctx, f):
+    """C01 with large batches under real contention: driver "bulk", checked without search by BulkTV"""
+    n = 6 if ctx.quick else 80
+    try:
+        out, st = run_harness(ctx, 'bulk', 'bulk', seed=ctx.seed, n=n)
+    except Crash as c:
+        first = str(c).splitlines()[0][:300]
+        report(ctx, f'crash:bulk:{first[:80]}', f'the bulk driver was killed by a panic raised outside the harness: {first}',
+               {'panic.txt': str(c), 'exec.json': dict(driver='bulk', seed=ctx.seed, n=n, crash=True)})
+        return
+    trace = f'{out}/trace.ndjson'
+    nl, bad = tv_cases(ctx, 'BulkTV', trace, 'tv_bulk')
+    lines = open(trace).read().splitlines()
+    ctx.evaluations += st['executions']
+    ctx.traces_ok += st['executions'] - len(bad)
+    ctx.distinct_nontrivial += st['executions']
+    ctx.conf.append(dict(mode='free (stress, large batches)', spec='BulkTV', executions=st['executions'],
+                         batches=sum(1 for ln in lines if '"ev":"putr"' in ln), disagreeing=len(bad)))
+    for k, b in enumerate(bad[:5]):
+        s0 = b - 1
+        while s0 > 0 and '"ev":"reset"' not in lines[s0]:
+            s0 -= 1
+        report(ctx, f'bulk:slicer:{k}', f'the final contents of a Buffer filled by concurrent large Puts are not the batches, unsplit and in order (BulkTV): {lines[b - 1][:300]}',
+               {'trace.ndjson': '\n'.join(lines[s0:b]) + '\n', 'exec.json': dict(driver='bulk', seed=ctx.seed, n=n, spec='BulkTV')})
+
+
+F['C01']['extra'] = bulk_extra
+
+
 def run(ctx):
     f = F[ctx.pid]
     if 'custom' in f:
